@@ -201,6 +201,7 @@ pub fn run(ctx: &mut Ctx) {
             }
         }
     }
+    let mon = super::routes::Monitor::new(&["to_string", "to_pretty_string"]);
     let n = ctx.budget(1_000_000, 20_000_000);
     for i in 0..n {
         if !ctx.next_case() {
@@ -232,6 +233,10 @@ pub fn run(ctx: &mut Ctx) {
             _ => gen::doc(&mut rng, &gen::DOC_FINITE),
         };
         check_one(ctx, &t);
+        if i % 4 == 1 && t.nodes() < 300 {
+            let args = super::routes::plain_args(&t, &mut rng);
+            mon.check(ctx, &t, &t, &args, &mut rng);
+        }
         ctx.sample(|| format!("{} -> {:?}", t.show(), jsonb::to_string(&refcodec::encode(&t))));
     }
 }
